@@ -6588,6 +6588,11 @@ _LIB_LOOP_FNS = [("ChunkState", "count", []), ("ChunkState", "fill_buf", []), ("
 
 
 def gen_lib_loops():
+    return _lib_loops_build()[0]
+
+
+def _lib_loops_build():
+    """(text of GenLibLoops.v, its LCtx, the stripped lib.rs text)"""
     out = [HEADER.replace("NArith List.", "NArith List Bool.").replace(
         "Base.MachInt.", "Base.MachInt Base.Word Base.Arr Base.ArrayVec.\n"
         "From V Require Import gen.GenConsts Model.Platform gen.GenLibSmall.")]
@@ -6676,6 +6681,1333 @@ def gen_lib_loops():
             f = LFn(ctx, impl, s, fname, r"\bfn\s+" + fname + r"\s*\(", codes)
             out.append(f.translate())
             ctx.methods[(s, fname)] = f.sig
+    return "\n".join(out), ctx, lib
+
+
+# ---------------------------------------------------------------------------
+# GenXof.v / GenHazmat.v / GenTraits.v: `OutputReader` of src/lib.rs, src/hazmat.rs, src/traits.rs and src/guts.rs,
+# translated statement by statement with the machinery of GenLibLoops.v (LParser / LCtx / LFn), extended here
+# (XParser / XCtx / XFn) by exactly the shapes these files use:
+#   * `&mut [u8]` output buffers that are written through and advanced from the front (Base/MutSlice.v): a variable
+#     of that type is the pair (bytes of the caller's buffer the slice has moved past, bytes it covers now);
+#     `buf[..n].copy_from_slice(s)` -> ms_write after the two bounds checks and the length check,
+#     `buf = &mut buf[a..]` / `*buf = &mut core::mem::take(buf)[a..]` -> ms_advance after `assert! (a <=? len)`;
+#     a parameter `buf: &mut [u8]` of a translated function is the caller's buffer before the call (a list), the
+#     result contains the buffer after the call (ms_buffer); a parameter `buf: &mut &mut [u8]` is the pair itself.
+#   * `self.inner.platform.xof_many(cv, block, block_len, counter, flags, &mut buf[..n])` stays a call of the explicit
+#     parameter ext_xof_many (signature anchored in src/platform.rs): it receives the n bytes of the destination and
+#     returns their new contents.
+#   * signed arithmetic (i64 / i128; Base/SInt.v): values are Z, `a as i128` of an unsigned a is Z.of_N a, `+` is
+#     zi_add at the width (Panic 1001 outside the range), cmp::min is Z.min, `x as u64` of a signed x is zi_as_u 64 x
+#     (the low 64 bits), comparisons are Z.ltb / Z.leb / Z.eqb.
+#   * `match e { Path::Variant(x) => value, .., Path::Variant(_) => { ..; return r; } }` over a translated enum:
+#     a Gallina match with one branch per arm in source order (every variant exactly once); as the initialiser of a
+#     top-level `let` whose arms may `return`, each arm yields inl value / inr result and the rest of the function is
+#     the inl continuation.
+#   * std::io::Result<T>: Ok(v) -> IoOk v; Err(std::io::Error::new(std::io::ErrorKind::K, "message")) -> IoErr "K"
+#     (Base/SInt.v io_result; the kind as ASCII codes).  std::io::SeekFrom is the standard library's enum
+#     Start(u64) / End(i64) / Current(i64).
+#   * `if c { a } else { b }` as the value of the function; bool parameters; tuple-struct newtypes over one translated
+#     struct (`Self(e)`, `self.0`: the identity); `Hash` / `[u8; 32]` conversions `.as_bytes()`, `.into()`, `.0`: the
+#     identity on the byte list; `Platform::detect()`: the extra last parameter `detected_platform` of the function
+#     (as in GenLibSmall's Hasher::new_internal); `S::m(&x, ..)` is `x.m(..)`.
+#   * assert_eq! / assert_ne! / assert! with a message: the message must be the one listed next to the Panic code in
+#     the table.  Slice-site Panic codes other than the defaults (40 / 41 / 42 / 54) are listed per function, in the
+#     order the checks are emitted; the list must be consumed exactly.
+# Everything else raises AnchorError: no statement is ever skipped.
+# ---------------------------------------------------------------------------
+_X_TOK = re.compile(r"""
+    (?P<ws>\s+)
+  | (?P<num>0[xX][0-9a-fA-F_]+|[0-9][0-9_]*)(?:_?(?:u8|u16|u32|u64|usize))?
+  | (?P<str>"(?:\\.|[^"\\])*")
+  | (?P<id>[A-Za-z_][A-Za-z0-9_]*(?:::[A-Za-z_][A-Za-z0-9_]*)*)
+  | (?P<op>\.\.|\+=|-=|->|=>|==|!=|<=|>=|&&|\|\||<<|>>|::|[-+*/%&|^!<>=().,\[\]{};:])
+""", re.X)
+_X_UNSIGNED = {"u8": 8, "u16": 16, "u32": 32, "u64": 64, "usize": 64}
+_X_SIGNED = {"i64": 64, "i128": 128}
+# std::io::SeekFrom (Rust standard library): variant -> payload kind
+_X_SEEKFROM = [("Start", ("int", 64)), ("End", ("sint", 64)), ("Current", ("sint", 64))]
+
+
+def _x_tokens(text, name):
+    out, i = [], 0
+    while i < len(text):
+        m = _X_TOK.match(text, i)
+        if not m:
+            raise AnchorError(f"{name}: cannot tokenize {text[i:i + 20]!r}")
+        i = m.end()
+        if m.group("ws"):
+            continue
+        if m.group("num"):
+            out.append(("num", int(m.group("num").replace("_", ""), 0)))
+        elif m.group("str") is not None:
+            out.append(("str", m.group("str")))
+        elif m.group("id"):
+            out.append(("id", m.group("id")))
+        else:
+            out.append(("op", m.group("op")))
+    return out
+
+
+class XParser(LParser):
+    """LParser plus ('let', mut, v, type text | None, init) with any type text; ('return', None);
+       ('match', scrutinee, [((path, binder | None, has payload), ('value', e) | ('block', ([stmts], tail)))]);
+       ('scast', w, e) for `as i64 / i128`; ('tfield', e, n) for `e.0`; ('call', f, args, [generic arguments])"""
+
+    def type_text(self):
+        out, depth = [], 0
+        while True:
+            k, v = self.peek()
+            if k == "eof":
+                raise self.err("unexpected end in a type")
+            if depth == 0 and (k, v) in (("op", "="), ("op", ";")):
+                break
+            if k == "op" and v in "[(<":
+                depth += 1
+            if k == "op" and v in "])>":
+                depth -= 1
+            out.append(str(v))
+            self.next()
+        return " ".join(out)
+
+    def stmts(self, end):
+        out, tail = [], None
+        while self.peek() != end:
+            if self.peek()[0] == "eof":
+                raise self.err("unexpected end")
+            if tail is not None:
+                raise self.err("expression without ';' in the middle of a block")
+            k, v = self.peek()
+            if (k, v) == ("id", "let"):
+                self.next()
+                mut = self.accept_id("mut")
+                name = self.ident()
+                ty = None
+                if self.accept(":"):
+                    ty = self.type_text()
+                init = self.expr(0) if self.accept("=") else None
+                self.expect(";")
+                out.append(("let", mut, name, ty, init))
+            elif (k, v) == ("id", "if"):
+                self.next()
+                c = self.expr(0, nostruct=True)
+                th = self.block()
+                el = None
+                if self.accept_id("else"):
+                    el = self.block()
+                out.append(("if", c, th, el))
+            elif (k, v) == ("id", "while"):
+                self.next()
+                c = self.expr(0, nostruct=True)
+                out.append(("while", c, self.block()))
+            elif (k, v) == ("id", "return"):
+                self.next()
+                e = None if self.peek() == ("op", ";") else self.expr(0)
+                self.expect(";")
+                out.append(("return", e))
+            elif k == "id" and v in ("for", "loop", "break", "continue", "unsafe", "fn", "const", "static", "else"):
+                raise self.err(f"statement {v!r} is not translated")
+            else:
+                e = self.expr(0)
+                if self.peek() in (("op", "="), ("op", "+="), ("op", "-=")):
+                    op = self.next()[1]
+                    rhs = self.expr(0)
+                    self.expect(";")
+                    out.append(("assign", op, e, rhs))
+                elif self.accept(";"):
+                    out.append(("expr", e))
+                else:
+                    tail = e
+        return out, tail
+
+    def expr(self, minprec, nostruct=False):
+        lhs = self.unary(nostruct)
+        while True:
+            k, v = self.peek()
+            if (k, v) == ("id", "as"):
+                self.next()
+                ty = self.next()[1]
+                if ty in _X_SIGNED:
+                    lhs = ("scast", _X_SIGNED[ty], lhs)
+                elif ty in _X_UNSIGNED:
+                    lhs = ("cast", _X_UNSIGNED[ty], lhs)
+                else:
+                    raise self.err(f"cast to {ty!r}")
+                continue
+            if k == "op" and v in BIN_PREC and BIN_PREC[v] >= minprec:
+                self.next()
+                rhs = self.expr(BIN_PREC[v] + 1, nostruct)
+                lhs = ("bin", v, lhs, rhs)
+                continue
+            return lhs
+
+    def pattern(self):
+        k, v = self.next()
+        if k != "id":
+            raise self.err("pattern")
+        if self.accept("("):
+            b = self.ident()
+            self.expect(")")
+            return (v, None if b == "_" else b, True)
+        return (v, None, False)
+
+    def primary(self, nostruct):
+        k, v = self.peek()
+        if (k, v) == ("id", "match"):
+            self.next()
+            scrut = self.expr(0, nostruct=True)
+            self.expect("{")
+            arms = []
+            while not self.accept("}"):
+                pat = self.pattern()
+                self.expect("=>")
+                if self.peek() == ("op", "{"):
+                    arms.append((pat, ("block", self.block())))
+                    self.accept(",")
+                else:
+                    arms.append((pat, ("value", self.expr(0))))
+                    if not self.accept(","):
+                        self.expect("}")
+                        break
+            return ("match", scrut, arms)
+        if k == "id" and self.peek(1) == ("op", "::") and self.peek(2) == ("op", "<"):
+            self.i += 3
+            gen = []
+            while True:
+                g = self.next()
+                if g[0] != "id":
+                    raise self.err("generic argument")
+                gen.append(g[1])
+                if self.accept(">"):
+                    break
+                self.expect(",")
+            self.expect("(")
+            return ("call", v, self.args(")"), gen)
+        return LParser.primary(self, nostruct)
+
+    def postfix(self, e):
+        while True:
+            if self.peek() == ("op", ".") and self.peek(1)[0] == "num":
+                e = ("tfield", e, self.peek(1)[1])
+                self.i += 2
+            elif self.accept("."):
+                m = self.ident()
+                if self.accept("("):
+                    e = ("meth", e, m, self.args(")"))
+                else:
+                    e = ("field", e, m)
+            elif self.accept("["):
+                lo = None if self.peek() == ("op", "..") else self.expr(0)
+                if self.accept(".."):
+                    hi = None if self.peek() == ("op", "]") else self.expr(0)
+                    idx = ("range", lo, hi)
+                else:
+                    idx = lo
+                self.expect("]")
+                e = ("index", e, idx)
+            else:
+                return e
+
+
+class XCtx(LCtx):
+    """LCtx plus: enums (name -> dict(coq, path, variants = [(name, payload kind | None)])), array-valued constants,
+    type names (text -> kind), translated functions standing in for an external of a callee (bound)."""
+
+    def __init__(self, prefix, base):
+        LCtx.__init__(self, prefix, dict(base.structs), dict(base.consts), base.cap)
+        self.fns, self.methods, self.exts, self.tyvars = dict(base.fns), dict(base.methods), dict(base.exts), list(base.tyvars)
+        self.platform_methods = dict(getattr(base, "platform_methods", {}))
+        self.enums = dict(getattr(base, "enums", {}))
+        self.aconsts = dict(getattr(base, "aconsts", {}))
+        self.types = dict(getattr(base, "types", {}))
+        self.bound = dict(getattr(base, "bound", {}))
+        self.newtypes = dict(getattr(base, "newtypes", {}))
+
+    def coq_type(self, k):
+        if k[0] == "sint":
+            return "Z"
+        if k[0] == "bool":
+            return "bool"
+        if k[0] == "mslice":
+            return "mslice"
+        if k[0] == "enum":
+            return self.enums[k[1]]["coq"]
+        if k[0] == "ioresult":
+            return f"(io_result {self.coq_type(k[1])})"
+        return LCtx.coq_type(self, k)
+
+    def enum_def(self, name):
+        en = self.enums[name]
+        rows = []
+        for v, k in en["variants"]:
+            rows.append(f"| {en['coq']}_{v}" + (f" (x : {self.coq_type(k)})" if k else ""))
+        return f"Inductive {en['coq']} :=\n" + "\n".join(rows) + ".\n"
+
+
+def _x_ascii(s):
+    return "[" + "; ".join(str(b) for b in s.encode()) + "]"
+
+
+class XFn(LFn):
+    def __init__(self, ctx, impl_text, struct, fname, header_re, codes, coqname=None, slice_codes=None,
+                 self_kind=None, newtype=False):
+        self.ctx, self.struct, self.fname = ctx, struct, fname
+        self.name = coqname or f"{ctx.P}{struct}_{fname}"
+        ptext, rtext = _fn_header(impl_text, header_re, self.name)
+        self.self_kind = self_kind or (("struct", struct) if struct else None)
+        self.newtype = newtype
+        structs = set(ctx.structs) | {"Self"}
+        self.codes, self.code_i = list(codes), 0
+        self.slice_codes, self.slice_i = (list(slice_codes) if slice_codes is not None else None), 0
+        self.env, self.params, self.selfmode = {}, [], None
+        self.lines, self.tmp, self.monadic, self.exts, self.fuel, self.loops = [], 0, False, [], False, []
+        self.frame, self.closers, self.detect, self.prologue = set(), [], False, []
+        ptext = re.sub(r"<[^<>;()]*>", lambda g: g.group(0).replace(",", "\x00"), ptext)   # generic arguments
+        for p in _p_split_top(ptext, ","):
+            p = " ".join(p.replace("\x00", ",").split())
+            if p:
+                self.param(p)
+        self.ret = self.ret_kind(" ".join(rtext.split()))
+        body = XParser(_x_tokens(fn_body(impl_text, header_re, self.name), self.name), self.name, structs).body()
+        self.block = self.norm(body)
+
+    # ---- normalisation of paths ----
+    def strip_crate(self, name):
+        for pre in ("crate::", "core::cmp::"):
+            if name.startswith(pre):
+                name = ("cmp::" if pre == "core::cmp::" else "") + name[len(pre):]
+        if name.startswith("Self::") and self.struct:
+            name = self.struct + name[4:]
+        return name
+
+    def norm(self, x):
+        if isinstance(x, list):
+            return [self.norm(y) for y in x]
+        if not isinstance(x, tuple):
+            return x
+        x = tuple(self.norm(y) for y in x)
+        if len(x) == 2 and x[0] == "var" and isinstance(x[1], str):
+            return ("var", self.strip_crate(x[1]))
+        if len(x) in (3, 4) and x[0] == "call" and isinstance(x[1], str) and isinstance(x[2], list):
+            name = self.strip_crate(x[1])
+            if "::" in name and name not in self.ctx.fns and x[2]:
+                s, m = name.rsplit("::", 1)
+                if (s, m) in self.ctx.methods:                      # S::m(&x, ..) is x.m(..)
+                    recv = x[2][0]
+                    if recv[0] == "ref":
+                        recv = recv[2]
+                    return ("meth", recv, m, x[2][1:])
+            return ("call", name) + x[2:]
+        if len(x) == 3 and x[0] == "tfield" and x[1] == ("var", "self") and x[2] == 0 and self.newtype:
+            return ("var", "self")                                  # the one field of a newtype over a translated struct
+        return x
+
+    # ---- signature ----
+    def type_kind(self, ty):
+        """type text -> (kind, passing mode) ; mode in None | 'buffer' | 'cursor' | 'inout'"""
+        ty = " ".join(ty.replace("crate::", "").split())
+        ty = re.sub(r"&\s*'\w+\s+", "&", ty)
+        if ty in self.ctx.types:
+            return self.ctx.types[ty], None
+        if ty == "&mut &mut [u8]":
+            return ("mslice",), "cursor"
+        if ty == "&mut [u8]":
+            return ("mslice",), "buffer"
+        if ty in ("&[u8]", "&str"):
+            return ("slice",), None
+        if re.fullmatch(r"&?\s*\[\s*u8\s*;\s*(\d+|[A-Z_]+)\s*\]", ty) or ty in ("&CVBytes", "&CVWords", "CVWords", "CVBytes"):
+            return ("arr",), None
+        if ty in _X_UNSIGNED:
+            return ("int", _X_UNSIGNED[ty]), None
+        if ty in _X_SIGNED:
+            return ("sint", _X_SIGNED[ty]), None
+        if ty == "bool":
+            return ("bool",), None
+        if ty == "Platform":
+            return ("platform",), None
+        base = ty[1:].strip() if ty.startswith("&") and not ty.startswith("&mut") else ty
+        if base == "Self" and self.self_kind:
+            return self.self_kind, None
+        if base in self.ctx.structs:
+            return ("struct", base), None
+        if base in self.ctx.enums:
+            return ("enum", base), None
+        for en in self.ctx.enums.values():
+            if base == en.get("path"):
+                return ("enum", en["name"]), None
+        raise self.err(f"type {ty!r}")
+
+    def param(self, p):
+        if p in ("&self", "&mut self", "self"):
+            if self.params or self.selfmode or not self.self_kind:
+                raise self.err("self is not the first parameter")
+            self.selfmode = {"&self": "ref", "&mut self": "mut", "self": "val"}[p]
+            self.env["self"] = {"kind": self.self_kind, "mut": self.selfmode == "mut", "uninit": False}
+            return
+        m = re.fullmatch(r"(mut )?(%s)\s*:\s*(.+)" % _IDENT, p)
+        if not m:
+            raise self.err(f"parameter {p!r}")
+        mut, v, ty = bool(m.group(1)), m.group(2), m.group(3).strip()
+        kind, mode = self.type_kind(ty)
+        if kind == ("arr",) and mode is None and re.match(r"&mut\b", ty):
+            mode = "inout"
+        if mode in ("buffer", "cursor", "inout"):
+            self.declare(v, kind, True)
+            self.env[v]["rebind"] = mut or mode == "cursor"
+        else:
+            self.declare(v, kind, mut)
+        self.params.append((v, kind, mode or False))
+
+    def ret_kind(self, r):
+        if r == "":
+            return None
+        if not r.startswith("->"):
+            raise self.err(f"result type {r!r}")
+        ty = " ".join(r[2:].replace("crate::", "").split())
+        if ty in ("&mut Self", "&mut " + (self.struct or "?")):
+            if self.selfmode != "mut":
+                raise self.err("-> &mut Self without &mut self")
+            return None
+        m = re.fullmatch(r"std::io::Result\s*<\s*(\w+)\s*>", ty)
+        if m:
+            if m.group(1) not in _X_UNSIGNED:
+                raise self.err(f"result type {r!r}")
+            return ("ioresult", ("int", _X_UNSIGNED[m.group(1)]))
+        kind, mode = self.type_kind(ty)
+        if mode is not None or ty.startswith("&"):
+            raise self.err(f"result type {r!r}")
+        return kind
+
+    # ---- Panic codes ----
+    def next_code(self, msg=None):
+        if self.code_i >= len(self.codes):
+            raise self.err("more assertion macros than Panic codes in the table")
+        c = self.codes[self.code_i]
+        self.code_i += 1
+        if isinstance(c, tuple):
+            want = c[1]
+            got = None if msg is None else msg[1:-1]
+            if want != got:
+                raise self.err(f"assertion message {got!r}, the table has {want!r} for Panic code {c[0]}")
+            return c[0]
+        if msg is not None:
+            raise self.err(f"assertion message {msg!r} is not in the table")
+        return c
+
+    def check(self, cond, code, note=None):
+        if note in ("[a..]", "[..b]", "copy_from_slice", "array_ref!") and self.slice_codes is not None:
+            if self.slice_i >= len(self.slice_codes):
+                raise self.err("more slice checks than codes in the table")
+            code = self.slice_codes[self.slice_i]
+            self.slice_i += 1
+        LFn.check(self, cond, code, note)
+
+    # ---- kinds ----
+    def var_kind(self, ast):
+        if ast[0] == "var":
+            e = self.env.get(ast[1])
+            if e:
+                return e["kind"]
+        return None
+
+    def path(self, ast):
+        if ast[0] == "var" and ast[1] in self.env:
+            e = self.env[ast[1]]
+            if e["uninit"]:
+                raise self.err(f"{ast[1]} is read before it is assigned")
+            return ast[1], [], ast[1], e["kind"]
+        return LFn.path(self, ast)
+
+    def is_signed(self, ast):
+        k = ast[0]
+        if k == "scast":
+            return True
+        if k == "var":
+            return (self.var_kind(ast) or ("",))[0] == "sint" or ast[1] in ("i64::MAX", "i128::MAX")
+        if k == "bin" and ast[1] in ("+", "-", "*"):
+            return self.is_signed(ast[2]) or self.is_signed(ast[3])
+        if k == "call" and ast[1] == "cmp::min":
+            return any(self.is_signed(a) for a in ast[2])
+        return False
+
+    def swidth(self, ast):
+        k = ast[0]
+        if k == "scast":
+            return ast[1]
+        if k == "var":
+            if ast[1] == "i64::MAX":
+                return 64
+            if ast[1] == "i128::MAX":
+                return 128
+            kd = self.var_kind(ast)
+            return kd[1] if kd and kd[0] == "sint" else None
+        if k == "bin":
+            return self.swidth(ast[2]) or self.swidth(ast[3])
+        if k == "call" and ast[1] == "cmp::min":
+            for a in ast[2]:
+                if self.swidth(a):
+                    return self.swidth(a)
+        return None
+
+    def zexpr(self, ast, w):
+        """pure term of type Z for a signed expression of width w; checked operations are bound first"""
+        k = ast[0]
+        if k == "num":
+            return f"{ast[1]}%Z"
+        if k == "var" and ast[1] in ("i64::MAX", "i128::MAX"):
+            if self.swidth(ast) != w:
+                raise self.err(f"{ast[1]} at width {w}")
+            return f"(zi_max {w})"
+        if k == "var":
+            if self.var_kind(ast) != ("sint", w):
+                raise self.err(f"{ast!r} is not an i{w}")
+            return self.path(ast)[2]
+        if k == "scast":
+            if ast[1] != w:
+                raise self.err(f"{ast!r} where an i{w} is expected")
+            inner = ast[2]
+            if self.is_signed(inner):
+                w2 = self.swidth(inner)
+                if w2 is None or w2 > w:
+                    raise self.err(f"narrowing signed cast {ast!r}")
+                return self.zexpr(inner, w2)
+            s = self.subst(inner)
+            w2 = width_of(s, {})
+            if w2 is None or w2 >= w:
+                raise self.err(f"cast {ast!r}: the unsigned operand must be narrower than the signed type")
+            return f"(Z.of_N {self.int_atom(inner, w2)})"
+        if k == "bin" and ast[1] in ("+", "-", "*"):
+            a = self.zexpr(ast[2], w)
+            b = self.zexpr(ast[3], w)
+            t = self.fresh()
+            self.bind(t, f"zi_{ {'+': 'add', '-': 'sub', '*': 'mul'}[ast[1]]} {w} {a} {b}")
+            return t
+        if k == "call" and ast[1] == "cmp::min" and len(ast[2]) == 2:
+            return f"(Z.min {self.zexpr(ast[2][0], w)} {self.zexpr(ast[2][1], w)})"
+        raise self.err(f"cannot translate the signed expression {ast!r}")
+
+    def len_term(self, ast):
+        p = self.path(ast)
+        if p and p[3] == ("mslice",):
+            return f"(ms_len {p[2]})"
+        return LFn.len_term(self, ast)
+
+    def method_sig(self, ast):
+        if ast[0] == "meth":
+            p = self.path(ast[1])
+            if p and p[3][0] == "enum":
+                sig = self.ctx.methods.get((p[3][1], ast[2]))
+                if sig is None:
+                    raise self.err(f"call of {p[3][1]}::{ast[2]}, which is not translated")
+                return sig, p[2]
+        return LFn.method_sig(self, ast)
+
+    def subst(self, ast):
+        k = ast[0]
+        if k == "call" and ast[1] in ("u64::max_value", "u64::MAX") and not ast[2]:
+            return ("coq", str((1 << 64) - 1), 64)
+        if k == "var" and ast[1] == "u64::MAX":
+            return ("coq", str((1 << 64) - 1), 64)
+        if k == "cast" and self.is_signed(ast[2]):
+            w = self.swidth(ast[2])
+            if w is None:
+                raise self.err(f"width of {ast[2]!r}")
+            return ("coq", f"(zi_as_u {ast[1]} {self.zexpr(ast[2], w)})", ast[1])
+        if k == "meth" and ast[2] not in ("len",) and ast[2] not in METHS:
+            ms = self.method_sig(ast)
+            if ms and ms[0]["ret"] and ms[0]["ret"][0] == "int" and ms[0]["self"] == "ref" and not ms[0]["params"] and not ast[3]:
+                sig, recv = ms
+                self.use_sig(sig)
+                if sig["exts"] or sig["fuel"]:
+                    raise self.err(f"integer method {ast[2]} with externals")
+                return ("coqres" if sig["res"] else "coq", f"({sig['coq']} {recv})", sig["ret"][1])
+        return LFn.subst(self, ast)
+
+    def cond(self, ast):
+        self.monadic = True
+        if ast[0] == "bin" and ast[1] in ("==", "!=", "<", "<=", ">", ">=") and (self.is_signed(ast[2]) or self.is_signed(ast[3])):
+            w = self.swidth(ast[2]) or self.swidth(ast[3])
+            a, b = self.zexpr(ast[2], w), self.zexpr(ast[3], w)
+            op = ast[1]
+            if op in (">", ">="):
+                a, b, op = b, a, {">": "<", ">=": "<="}[op]
+            if op == "!=":
+                return f"(Ok (negb (Z.eqb {a} {b})))"
+            return f"(Ok ({ {'==': 'Z.eqb', '<': 'Z.ltb', '<=': 'Z.leb'}[op]} {a} {b}))"
+        if ast[0] == "var" and self.var_kind(ast) == ("bool",):
+            return f"(Ok {ast[1]})"
+        return LFn.cond(self, ast)
+
+    # ---- values ----
+    def is_detect(self, ast):
+        return ast[0] == "call" and not ast[2] and (ast[1] == "Platform::detect" or ast[1].endswith("::Platform::detect"))
+
+    def arr(self, ast):
+        k = ast[0]
+        if k == "var" and ast[1] in self.ctx.aconsts and ast[1] not in self.env:
+            return self.ctx.aconsts[ast[1]]
+        if k == "deref" and ast[1][0] == "var" and ast[1][1] in self.ctx.aconsts and ast[1][1] not in self.env:
+            return self.ctx.aconsts[ast[1][1]]
+        if k == "deref":
+            return self.arr(ast[1])
+        if k == "meth" and ast[2] in ("as_bytes", "into") and not ast[3] and self.kind_of(ast[1]) in (("arr",), ("slice",)):
+            return self.arr(ast[1])                          # Hash / [u8; 32] / &str conversions: the same bytes
+        if k == "tfield" and ast[2] == 0 and self.kind_of(ast[1]) == ("arr",):
+            return self.arr(ast[1])                          # Hash(bytes).0
+        if k == "call" and ast[1] in self.ctx.fns and self.ctx.fns[ast[1]]["ret"] == ("arr",):
+            if len(ast) == 4 and ast[3] != self.ctx.fns[ast[1]].get("generics"):
+                raise self.err(f"generic arguments {ast[3]!r} of {ast[1]}")
+            t, res = self.call(self.ctx.fns[ast[1]], None, ast[2])
+            return self.value_of(t, res)
+        if k == "index" and ast[2][0] == "range":
+            p = self.path(ast[1])
+            if p and p[3] == ("mslice",):
+                raise self.err(f"a sub-slice of the output buffer {ast[1]!r} as a value")
+        if k == "meth":
+            ms = self.method_sig(ast)
+            if ms and ms[0]["ret"] == ("arr",):
+                term, res = self.call(ms[0], ms[1], ast[3])
+                return self.value_of(term, res)
+        return LFn.arr(self, ast)
+
+    def struct_(self, ast, want=None):
+        k = ast[0]
+        if k == "struct" and ast[1] == "Self":
+            if not self.struct:
+                raise self.err("Self outside an impl")
+            ast = ("struct", self.struct, ast[2])
+        if k == "call" and ast[1] in ("Self", self.struct) and self.newtype and len(ast[2]) == 1:
+            return self.struct_(ast[2][0], want)            # the newtype constructor
+        if k == "call" and len(ast) == 4:
+            sig = self.ctx.fns.get(ast[1])
+            if sig is None or ast[3] != sig.get("generics"):
+                raise self.err(f"generic call {ast[1]}::<{ast[3]!r}>")
+            ast = ast[:3]
+        elif k == "call" and self.ctx.fns.get(ast[1], {}).get("generics"):
+            raise self.err(f"call of {ast[1]} without its generic arguments")
+        return LFn.struct_(self, ast, want)
+
+    def value(self, ast, kind):
+        if kind[0] == "platform" and self.is_detect(ast):
+            self.detect = True
+            return "detected_platform"
+        if kind[0] == "sint":
+            return self.zexpr(ast, kind[1])
+        if kind[0] == "bool":
+            if self.var_kind(ast) == ("bool",):
+                return ast[1]
+            raise self.err(f"cannot translate {ast!r} as a bool")
+        if kind[0] == "enum":
+            p = self.path(ast)
+            if p and p[3] == kind:
+                return p[2]
+            raise self.err(f"cannot translate {ast!r} as a {kind!r}")
+        if kind[0] == "ext":
+            raise self.err(f"value of the abstract type {kind[1]}")
+        return LFn.value(self, ast, kind)
+
+    def kind_of(self, ast):
+        k = ast[0]
+        if k == "var" and ast[1] in self.ctx.aconsts and ast[1] not in self.env:
+            return ("arr",)
+        if self.is_signed(ast):
+            return ("sint", self.swidth(ast))
+        if k == "call":
+            if self.is_detect(ast):
+                return ("platform",)
+            if ast[1] in ("Self", self.struct) and self.newtype:
+                return self.self_kind
+            if ast[1] in self.ctx.fns:
+                return self.ctx.fns[ast[1]]["ret"]
+        if k == "struct" and ast[1] == "Self":
+            return self.self_kind
+        if k == "meth":
+            if ast[2] in ("as_bytes", "into") and not ast[3]:
+                return self.kind_of(ast[1])
+            p = self.path(ast[1])
+            if p and p[3][0] in ("struct", "enum") and (p[3][1], ast[2]) in self.ctx.methods:
+                return self.ctx.methods[(p[3][1], ast[2])]["ret"]
+            if p is None and ast[1][0] in ("meth", "call"):
+                kd = self.kind_of(ast[1])
+                if kd and kd[0] == "struct" and (kd[1], ast[2]) in self.ctx.methods:
+                    return self.ctx.methods[(kd[1], ast[2])]["ret"]
+        if k == "tfield":
+            return self.kind_of(ast[1])
+        if k == "match":
+            for _, body in ast[2]:
+                if body[0] == "value":
+                    return self.kind_of(body[1])
+            raise self.err("match without a value arm")
+        if k == "deref":
+            return self.kind_of(ast[1])
+        return LFn.kind_of(self, ast)
+
+    # ---- calls ----
+    def call_term(self, sig, recv, terms):
+        head = [sig["coq"]]
+        if not sig.get("external"):
+            for x in sig["exts"]:
+                head.append(self.ctx.bound.get(x, "ext_" + x))
+            if sig["fuel"]:
+                head.append("fuel")
+        t = " ".join(head + ([recv] if recv is not None else []) + terms)
+        if sig.get("detect"):
+            self.detect = True
+            t += " detected_platform"
+        return t
+
+    def use_sig(self, sig):
+        for x in sig["exts"]:
+            if x not in self.exts and x not in self.ctx.bound:
+                self.exts.append(x)
+        if sig["fuel"]:
+            self.fuel = True
+
+    def call(self, sig, recv, args):
+        if len(args) != len(sig["params"]):
+            raise self.err(f"call of {sig['coq']}: {len(args)} arguments for {len(sig['params'])} parameters")
+        if any(io for _, _, io in sig["params"]) or sig["self"] == "mut":
+            raise self.err(f"call of {sig['coq']} inside an expression writes through its arguments")
+        self.use_sig(sig)
+        terms = [self.value(a, k) for a, (_, k, _) in zip(args, sig["params"])]
+        return self.call_term(sig, recv, terms), sig["res"]
+
+    def call_stmt(self, sig, args, recv_path=None):
+        """recv.m(args) with a `&mut self` receiver, as a statement; recv_path = (root, fields, term)"""
+        if sig["self"] != "mut" or sig["ret"] is not None:
+            raise self.err(f"call of {sig['coq']} as a statement")
+        if len(args) != len(sig["params"]):
+            raise self.err(f"call of {sig['coq']}: {len(args)} arguments for {len(sig['params'])} parameters")
+        self.use_sig(sig)
+        root, fs, rterm = recv_path or ("self", [], "self")
+        rv = root if not fs else self.fresh()
+        terms, outs, after = [], [rv], []
+        for a, (_, k, io) in zip(args, sig["params"]):
+            if io == "buffer":
+                # a `&mut [u8]` argument passed on: the callee sees the bytes the slice covers and returns their new contents
+                if not (a[0] == "var" and self.var_kind(a) == ("mslice",)):
+                    raise self.err(f"call of {sig['coq']}: argument {a!r} for a &mut [u8] parameter")
+                t = self.fresh()
+                terms.append(f"(ms_win {a[1]})")
+                outs.append(t)
+                after.append((a[1], f"ms_set_win {a[1]} {t}"))
+            elif io:
+                if not (a[0] == "ref" and a[1] and a[2][0] == "var" and self.env.get(a[2][1], {}).get("kind") == k
+                        and self.env[a[2][1]]["mut"] and self.env[a[2][1]].get("rebind", True)):
+                    raise self.err(f"call of {sig['coq']}: argument {a!r} for a &mut parameter")
+                terms.append(self.path(a[2])[2])
+                outs.append(a[2][1])
+            else:
+                terms.append(self.value(a, k))
+        pat = outs[0] if len(outs) == 1 else "'(" + ", ".join(outs) + ")"
+        term = self.call_term(sig, rterm, terms)
+        if sig["res"]:
+            self.bind(pat, term)
+        else:
+            self.let(pat, term)
+        if fs:
+            self.set_path(root, fs, rv)
+        else:
+            self.assigned(root)
+        for v in outs[1:]:
+            if v in self.env:
+                self.assigned(v)
+        for v, t in after:
+            self.let(v, t)
+            self.assigned(v)
+
+    # ---- statements ----
+    def place(self, ast):
+        p = self.path(ast) if ast[0] in ("var", "field") else None
+        if p and p[3] == ("mslice",) and not p[1]:
+            return p[0], [], p[2], None, f"(ms_len {p[2]})"
+        if p and p[3] == ("arr",) and not p[1] and self.env[p[0]]["mut"]:
+            return p[0], [], p[2], None, f"(N.of_nat (length {p[2]}))"
+        return LFn.place(self, ast)
+
+    def stmt(self, s, top):
+        if s[0] == "let" and s[4] is not None:
+            _, mut, v, ty, init = s
+            want = None
+            if ty is not None:
+                want = self.type_kind(ty)[0]
+                s = ("let", mut, v, None, init)
+            if init[0] == "match":
+                if not top:
+                    raise self.err("let .. = match inside a block")
+                kind = want or self.kind_of(init)
+                self.match_let(v, kind, init)
+                return self.declare(v, kind, mut)
+            kind = self.kind_of(init)
+            if want is not None and kind != want:
+                raise self.err(f"let {v}: {ty} = {init!r}: the initialiser is a {kind!r}")
+            if kind and kind[0] in ("sint", "bool", "enum"):
+                self.let(v, self.value(init, kind))
+                return self.declare(v, kind, mut)
+        return LFn.stmt(self, s, top)
+
+    def assign(self, s):
+        _, op, lhs, rhs = s
+        target = lhs[1] if lhs[0] == "deref" else lhs
+        if target[0] == "var" and self.var_kind(target) == ("mslice",) and op == "=":
+            v = target[1]
+            e = self.env[v]
+            cursor = any(x == v and io == "cursor" for x, _, io in self.params)
+            if (lhs[0] == "deref") != cursor or not e.get("rebind"):
+                raise self.err(f"assignment to the slice {lhs!r}")
+            # buf = &mut buf[a..]   /   *buf = &mut core::mem::take(buf)[a..]
+            if not (rhs[0] == "ref" and rhs[1] and rhs[2][0] == "index" and rhs[2][2][0] == "range"
+                    and rhs[2][2][1] is not None and rhs[2][2][2] is None):
+                raise self.err(f"assignment to the slice {v}: {rhs!r}")
+            base = rhs[2][1]
+            if cursor:
+                if base != ("call", "core::mem::take", [("var", v)]):
+                    raise self.err(f"assignment to the slice {v}: {rhs!r}")
+            elif base != ("var", v):
+                raise self.err(f"assignment to the slice {v}: {rhs!r}")
+            a = self.int_atom(rhs[2][2][1], 64)
+            self.check(f"({a} <=? (ms_len {v}))", _L_SLICE_FROM, "[a..]")
+            self.let(v, f"ms_advance {v} (N.to_nat {a})")
+            return self.assigned(v)
+        return LFn.assign(self, s)
+
+    def expr_stmt(self, e):
+        if e[0] == "macro" and e[1] in ("debug_assert", "debug_assert_eq", "assert_eq", "assert", "assert_ne"):
+            args = [a for a in e[2]]
+            msg = None
+            if args and args[-1][0] == "str":
+                msg = args.pop()[1]
+            code = self.next_code(msg)
+            if e[1].endswith("_eq") and len(args) == 2:
+                c = self.cond(("bin", "==", args[0], args[1]))
+            elif e[1].endswith("_ne") and len(args) == 2:
+                c = self.cond(("bin", "!=", args[0], args[1]))
+            elif not (e[1].endswith("_eq") or e[1].endswith("_ne")) and len(args) == 1:
+                c = self.cond(args[0])
+            else:
+                raise self.err(f"{e[1]}! with {len(args)} arguments")
+            t = self.fresh()
+            self.bind(t, c)
+            return LFn.check(self, t, code, e[1] + "!")
+        if e[0] == "meth":
+            recv, m, args = e[1], e[2], e[3]
+            if m == "copy_from_slice" and len(args) == 1:
+                root, fs, base, off, ln = self.place(recv)
+                src = self.named(self.arr(args[0]))
+                self.check(f"(N.of_nat (length {src}) =? {ln})", _L_COPY_LEN, "copy_from_slice")
+                if self.env[root]["kind"] == ("mslice",):
+                    self.let(root, f"ms_write {root} (N.to_nat {off or '0'}) {src}")
+                    return self.assigned(root)
+                return self.set_path(root, fs, f"(arr_store {base} (N.to_nat {off or '0'}) {src})")
+            p = self.path(recv)
+            if p and p[3] == ("platform",) and m == "xof_many":
+                return self.xof_many(p, args)
+            if p and p[3][0] == "struct" and (p[3][1], m) in self.ctx.methods:
+                sig = self.ctx.methods[(p[3][1], m)]
+                if sig["self"] == "mut" and self.env[p[0]]["mut"]:
+                    return self.call_stmt(sig, args, (p[0], p[1], p[2]))
+        return LFn.expr_stmt(self, e)
+
+    def xof_many(self, p, args):
+        f = self.ctx.platform_methods.get("xof_many")
+        if f is None or len(args) != 6:
+            raise self.err("platform call xof_many")
+        terms = [self.value(a, ("arr",)) for a in args[:2]]
+        terms += [self.int_atom(a, w) for a, w in zip(args[2:5], (8, 64, 8))]
+        out = args[5]
+        # &mut buf[..n]
+        if not (out[0] == "ref" and out[1] and out[2][0] == "index" and out[2][2][0] == "range"
+                and out[2][2][1] is None and out[2][2][2] is not None and self.var_kind(out[2][1]) == ("mslice",)):
+            raise self.err(f"xof_many: destination {out!r}")
+        v = out[2][1][1]
+        n = self.int_atom(out[2][2][2], 64)
+        self.check(f"({n} <=? (ms_len {v}))", _L_SLICE_TO, "[..b]")
+        if "xof_many" not in self.exts:
+            self.exts.append("xof_many")
+        t = self.fresh()
+        self.bind(t, " ".join(["ext_xof_many", p[2]] + terms + [f"(firstn (N.to_nat {n}) (ms_win {v}))"]))
+        self.let(v, f"ms_write {v} 0%nat {t}")
+        self.assigned(v)
+
+    # ---- match ----
+    def match_arms(self, ast):
+        """-> (scrutinee term, [(Gallina pattern, binder, binder kind, body)])"""
+        _, scrut, arms = ast
+        p = self.path(scrut)
+        if not p or p[3][0] != "enum":
+            raise self.err(f"match on {scrut!r}")
+        en = self.ctx.enums[p[3][1]]
+        variants = dict(en["variants"])
+        seen, out = [], []
+        for (path, binder, payload), body in arms:
+            path = self.strip_crate(path)
+            if "::" not in path:
+                raise self.err(f"pattern {path!r}")
+            pre, v = path.rsplit("::", 1)
+            if pre not in (en["name"], en.get("path")) or v not in variants or v in seen:
+                raise self.err(f"pattern {path!r} of enum {en['name']}")
+            if payload != (variants[v] is not None):
+                raise self.err(f"pattern {path!r}: payload")
+            seen.append(v)
+            out.append((f"{en['coq']}_{v}" + (f" {binder or '_'}" if payload else ""), binder, variants[v], body))
+        if set(seen) != set(variants):
+            raise self.err(f"match on {en['name']} does not list every variant")
+        return p[2], out
+
+    def arm_scope(self, binder, kind):
+        saved = (self.lines, self.frame, list(self.env))
+        self.lines, self.frame = [], set()
+        if binder is not None:
+            self.declare(binder, kind, False)
+        return saved
+
+    def arm_close(self, saved):
+        lines, frame = self.lines, self.frame
+        self.lines, self.frame = saved[0], saved[1]
+        for v in list(self.env):
+            if v not in saved[2]:
+                del self.env[v]
+        if frame:
+            raise self.err(f"a match arm assigns {sorted(frame)}")
+        return lines
+
+    def match_value(self, ast, kind):
+        """a match whose arms are all values -> a term of the kind (bound first when an arm needs a bind)"""
+        scrut, arms = self.match_arms(ast)
+        done = []
+        for pat, binder, bk, body in arms:
+            if body[0] != "value":
+                raise self.err("a block arm in a value match")
+            saved = self.arm_scope(binder, bk)
+            v = self.value(body[1], kind)
+            done.append((pat, self.arm_close(saved), v))
+        if all(not ls for _, ls, _ in done):
+            return "match " + scrut + " with " + " ".join(f"| {pat} => {v}" for pat, _, v in done) + " end"
+        t = self.fresh()
+        self.monadic = True
+        self.lines.append(f"{t} <- match {scrut} with")
+        for pat, ls, v in done:
+            self.lines.append(f"  | {pat} =>")
+            self.lines += ["      " + l for l in ls] + [f"      Ok {v}"]
+        self.lines.append("  end ;;")
+        return t
+
+    def match_let(self, v, kind, ast):
+        """let v = match .. { .. => value, .. => { ..; return r; } }: the rest of the function is the inl continuation"""
+        scrut, arms = self.match_arms(ast)
+        if all(body[0] == "value" for _, _, _, body in arms):
+            return self.let(v, self.match_value(ast, kind))
+        t = self.fresh()
+        self.monadic = True
+        self.lines.append(f"{t} <- match {scrut} with")
+        for pat, binder, bk, body in arms:
+            saved = self.arm_scope(binder, bk)
+            if body[0] == "value":
+                val = self.value(body[1], kind)
+                fin = f"Ok (inl {val})"
+            else:
+                stmts, tail = body[1]
+                if tail is not None or not stmts or stmts[-1][0] != "return":
+                    raise self.err("a block arm must end in return")
+                for s in stmts[:-1]:
+                    self.stmt(s, False)
+                fin = f"Ok (inr {self.result(stmts[-1][1])})"
+            ls = self.arm_close(saved)
+            self.lines.append(f"  | {pat} =>")
+            self.lines += ["      " + l for l in ls] + ["      " + fin]
+        self.lines.append("  end ;;")
+        self.lines.append(f"match {t} with")
+        self.lines.append("| inr r => Ok r")
+        self.lines.append(f"| inl {v} =>")
+        self.closers.append("end")
+
+    # ---- results ----
+    def io_result(self, tail):
+        if tail[0] == "call" and tail[1] == "Ok" and len(tail[2]) == 1:
+            k = self.ret[1]
+            s = self.subst(tail[2][0])
+            if s[0] in ("num", "coq"):
+                v = self.int_atom(tail[2][0], k[1])
+            else:
+                v = self.fresh()
+                self.bind(v, emit(s, {}, {}, self.name, k[1]))
+            return f"(IoOk {v})"
+        if tail[0] == "call" and tail[1] == "Err" and len(tail[2]) == 1:
+            e = tail[2][0]
+            if e[0] == "call" and e[1] == "std::io::Error::new" and len(e[2]) == 2 and e[2][0][0] == "var" \
+                    and e[2][0][1].startswith("std::io::ErrorKind::") and e[2][1][0] == "str":
+                kind = e[2][0][1].rsplit("::", 1)[1]
+                return f"(IoErr {_x_ascii(kind)} (* ErrorKind::{kind}, {e[2][1][1]} *))"
+        raise self.err(f"result expression {tail!r}")
+
+    def result(self, tail):
+        parts = (["self"] if self.selfmode == "mut" else [])
+        for v, _, io in self.params:
+            if io:
+                if self.env[v]["uninit"]:
+                    raise self.err(f"{v} is not initialised at the end")
+                parts.append(f"(ms_buffer {v})" if io == "buffer" else v)
+        if self.ret is None:
+            if tail is not None and not (tail == ("var", "self") and self.selfmode == "mut"):
+                raise self.err(f"result expression {tail!r}")
+        else:
+            if tail is None:
+                raise self.err("no result expression")
+            if self.ret[0] == "ioresult":
+                parts.append(self.io_result(tail))
+            elif tail[0] == "match":
+                parts.append("(" + self.match_value(tail, self.ret) + ")")
+            elif self.ret[0] == "int":
+                s = self.subst(tail)
+                if s[0] in ("num", "coq"):
+                    parts.append(self.int_atom(tail, self.ret[1]))
+                else:
+                    v = self.fresh()
+                    self.bind(v, emit(s, {}, {}, self.name, self.ret[1]))
+                    parts.append(v)
+            else:
+                parts.append(self.value(tail, self.ret))
+        if not parts:
+            raise self.err("neither a result nor a written parameter")
+        return self.tuple_of(parts)
+
+    def tail_if(self, s):
+        """if c { a } else { b } as the value of the function -> a variable holding it"""
+        _, c, (th, th_tail), el = s
+        if el is None or th_tail is None or el[1] is None:
+            raise self.err("the final if has no value in one of its arms")
+        t = self.fresh()
+        self.bind(t, self.cond(c))
+        arms = []
+        for stmts, tl in ((th, th_tail), el):
+            saved = self.arm_scope(None, None)
+            for st in stmts:
+                self.stmt(st, False)
+            v = self.value(tl, self.ret)
+            arms.append((self.arm_close(saved), v))
+        r = self.fresh()
+        self.lines.append(f"{r} <- (if ({t} : bool) then")
+        self.lines += ["    " + l for l in arms[0][0]] + [f"    Ok {arms[0][1]}", "  else"]
+        self.lines += ["    " + l for l in arms[1][0]] + [f"    Ok {arms[1][1]}) ;;"]
+        self.env[r] = {"kind": self.ret, "mut": False, "uninit": False}
+        return ("var", r)
+
+    def translate(self):
+        ctx = self.ctx
+        stmts, tail = self.block
+        for v, k, io in self.params:
+            if io == "buffer":
+                self.prologue.append(f"let {v} := ms_of {v} in")
+        if tail is None and self.ret is not None and stmts and stmts[-1][0] == "if":
+            last, stmts = stmts[-1], stmts[:-1]
+        else:
+            last = None
+        for i, s in enumerate(stmts):
+            if s[0] == "if" and s[3] is None and s[2][1] is None and s[2][0] and s[2][0][-1][0] == "return":
+                t = self.fresh()
+                self.bind(t, self.cond(s[1]))
+                lines, vs = self.sub_block(s[2][0][:-1])
+                if vs:
+                    raise self.err("assignments before an early return")
+                saved = self.lines
+                self.lines = []
+                r = self.result(s[2][0][-1][1])
+                arm = lines + self.lines
+                self.lines = saved
+                self.lines.append(f"if ({t} : bool) then (")
+                self.lines += ["    " + l for l in arm] + [f"    Ok {r})", "else"]
+            else:
+                self.stmt(s, True)
+        if last is not None:
+            tail = self.tail_if(last)
+        r = self.result(tail)
+        if self.code_i != len(self.codes):
+            raise self.err(f"{self.code_i} assertion macros in the body, {len(self.codes)} Panic codes in the table")
+        if self.slice_codes is not None and self.slice_i != len(self.slice_codes):
+            raise self.err(f"{self.slice_i} slice checks in the body, {len(self.slice_codes)} codes in the table")
+        parts = ([self.self_kind] if self.selfmode == "mut" else [])
+        rtys = [ctx.coq_type(k) for k in parts]
+        rtys += ["list N" if io == "buffer" else ctx.coq_type(k) for _, k, io in self.params if io]
+        if self.ret is not None:
+            rtys.append(ctx.coq_type(self.ret))
+        rty = " * ".join(rtys)
+        if self.monadic:
+            rty = f"res ({rty})" if " " in rty else f"res {rty}"
+        self.exts = [x for x in ctx.exts if x in self.exts]              # declaration order
+        ext_sig = "".join(f"(ext_{x} : {ctx.exts[x]['type']}) " for x in self.exts)
+        tyvars = [ctx.exts[x]["tyvar"] for x in self.exts if ctx.exts[x]["tyvar"]]
+        ty_sig = "".join(f"{{{t} : Type}} " for t in dict.fromkeys(tyvars))
+        ext_args = "".join(f"ext_{x} " for x in self.exts)
+        sig = ty_sig + ext_sig + ("(fuel : nat) " if self.fuel else "")
+        if self.selfmode:
+            sig += f"(self : {ctx.coq_type(self.self_kind)}) "
+        sig += " ".join(f"({v} : {'list N' if io == 'buffer' else ctx.coq_type(k)})" for v, k, io in self.params)
+        if self.detect:
+            sig = (sig.rstrip() + " (detected_platform : platform)").strip()
+        text = "".join(l.replace("@EXTS@", ty_sig + ext_sig).replace("@EXTARGS@", ext_args) + "\n" for l in self.loops)
+        body = "".join("  " + l.replace("@EXTARGS@", ext_args) + "\n" for l in self.prologue + self.lines)
+        closers = "".join("\n  " + c for c in self.closers)
+        text += f"Definition {self.name} {sig.rstrip()}\n  : {rty} :=\n{body}  {'Ok ' if self.monadic else ''}{r}{closers}.\n"
+        self.sig = {"coq": self.name, "self": "ref" if self.selfmode == "val" else self.selfmode, "struct": self.struct,
+                    "params": self.params, "ret": self.ret, "res": self.monadic, "exts": self.exts, "fuel": self.fuel,
+                    "detect": self.detect}
+        return text
+
+
+def _x_anchor_sig(text, hdr, want_params, want_ret, what):
+    ptext, rtext = _fn_header(text, hdr, what)
+    got = [" ".join(a.split()) for a in _args(ptext)]
+    if got != want_params or " ".join(rtext.split()) != want_ret:
+        raise AnchorError(f"{what}: signature {got!r} {rtext!r}")
+
+
+_X_HEADER = HEADER.replace("NArith List.", "NArith ZArith List Bool.").replace(
+    "Base.MachInt.", "Base.MachInt Base.Word Base.Arr Base.ArrayVec Base.MutSlice Base.SInt.\n"
+    "From V Require Import gen.GenConsts Model.Platform gen.GenLibSmall gen.GenLibLoops.")
+
+# OutputReader: (function, header, Panic codes of the assertion macros, Panic codes of the slice checks or None).
+# 60 = &output_block[self.position_within_block as usize..] (Model/RsXof.v fill_one_block); the other slice checks of
+# fill_one_block cannot fail (take is a minimum of the two lengths) and the model has none for them.
+# 1500 / 1501 / 1502: the three debug_asserts of fill (Model/RsXof.v reader_fill).
+_XOF_FNS = [("new", r"\bfn\s+new\s*\(", [], None),
+            ("fill_one_block", r"\bfn\s+fill_one_block\s*\(", [], [60, 41, 41, 42, 40]),
+            ("fill", r"\bpub\s+fn\s+fill\s*\(", [1500, 1501, 1502], None),
+            ("position", r"\bpub\s+fn\s+position\s*\(", [], None),
+            ("set_position", r"\bpub\s+fn\s+set_position\s*\(", [], None)]
+
+
+def _xof_build():
+    text0, base, lib = _lib_loops_build()
+    plat = strip_comments(src("src/platform.rs"))
+    ctx = XCtx("lib_", base)
+    out = [_X_HEADER]
+    # Output::root_output_block is GenLibSmall's translation (same run, same text)
+    o_impl = fn_body(lib, r"\bimpl\s+Output\s*\{", "impl Output")
+    _x_anchor_sig(o_impl, r"\bfn\s+root_output_block\s*\(", ["&self"], "-> [u8; 2 * OUT_LEN]", "Output::root_output_block")
+    ctx.methods[("Output", "root_output_block")] = {"coq": "lib_Output_root_output_block", "self": "ref", "struct": "Output",
+                                                    "params": [], "ret": ("arr",), "res": False, "exts": [], "fuel": False}
+    # Platform::xof_many stays a call (explicit parameter ext_xof_many)
+    pimpl = fn_body(plat, r"\bimpl\s+Platform\s*\{", "impl Platform")
+    _x_anchor_sig(pimpl, r"\bpub\s+fn\s+xof_many\s*\(",
+                  ["&self", "cv: &CVWords", "block: &[u8; BLOCK_LEN]", "block_len: u8", "mut counter: u64", "flags: u8",
+                   "out: &mut [u8]"], "", "Platform::xof_many")
+    ctx.platform_methods["xof_many"] = {"coq": "ext_xof_many"}
+    ctx.exts["xof_many"] = {"type": "platform -> list N -> list N -> N -> N -> N -> list N -> res (list N)", "tyvar": None}
+    find1(r"\buse\s+core::cmp\s*;", lib, "lib.rs use core::cmp")
+    ctx.structs["OutputReader"] = RStruct(lib, "OutputReader", "lib_", {}, ctx.structs)
+    ctx.enums["SeekFrom"] = {"name": "SeekFrom", "path": "std::io::SeekFrom", "coq": "lib_SeekFrom", "variants": _X_SEEKFROM}
+    out.append("(* ---- src/lib.rs: struct OutputReader; std::io::SeekFrom (standard library) ---- *)\n")
+    out.append(ctx.structs["OutputReader"].record())
+    out.append(ctx.enum_def("SeekFrom"))
+    out.append("(* ---- record updates for `self.field = e` ---- *)\n")
+    out.append(ctx.setters("Output"))
+    out.append(ctx.setters("OutputReader"))
+    r_impl = fn_body(lib, r"\bimpl\s+OutputReader\s*\{", "impl OutputReader")
+    out.append("(* ---- src/lib.rs: impl OutputReader ---- *)\n")
+    for fname, hdr, codes, scodes in _XOF_FNS:
+        f = XFn(ctx, r_impl, "OutputReader", fname, hdr, codes, slice_codes=scodes)
+        out.append(f.translate())
+        if fname == "new":
+            ctx.fns["OutputReader::new"] = f.sig
+        else:
+            ctx.methods[("OutputReader", fname)] = f.sig
+    out.append("(* ---- src/lib.rs: impl std::io::Read for OutputReader, impl std::io::Seek for OutputReader ---- *)\n")
+    rd_impl = fn_body(lib, r"\bimpl\s+std::io::Read\s+for\s+OutputReader\s*\{", "impl std::io::Read for OutputReader")
+    f = XFn(ctx, rd_impl, "OutputReader", "read", r"\bfn\s+read\s*\(", [], coqname="lib_OutputReader_Read_read")
+    out.append(f.translate())
+    ctx.methods[("OutputReader", "Read::read")] = f.sig
+    sk_impl = fn_body(lib, r"\bimpl\s+std::io::Seek\s+for\s+OutputReader\s*\{", "impl std::io::Seek for OutputReader")
+    f = XFn(ctx, sk_impl, "OutputReader", "seek", r"\bfn\s+seek\s*\(", [], coqname="lib_OutputReader_Seek_seek")
+    out.append(f.translate())
+    ctx.methods[("OutputReader", "Seek::seek")] = f.sig
+    return "\n".join(out), ctx, lib
+
+
+def gen_xof():
+    return _xof_build()[0]
+
+
+# hazmat.rs: (impl / None, function, header, [(Panic code, message)]); the codes are Model/RsHasher.v's for the same
+# asserts (set_input_offset: 23, 24; finalize_non_root: 25)
+_HAZMAT_EXT_FNS = [("new_from_context_key", []),
+                   ("set_input_offset", [(23, "hasher has already accepted input"),
+                                         (24, "offset ({offset}) must be a chunk boundary (divisible by {CHUNK_LEN})")]),
+                   ("finalize_non_root", [(25, "empty subtrees are never valid")])]
+
+
+def _hazmat_build():
+    text0, xctx, lib = _xof_build()
+    hz = strip_comments(src("src/hazmat.rs"))
+    plat = strip_comments(src("src/platform.rs"))
+    ctx = XCtx("hz_", xctx)
+    out = [_X_HEADER.replace("gen.GenLibLoops.", "gen.GenLibLoops gen.GenXof.")]
+    use = find1(r"use\s+crate::\{(.*?)\};", hz, "hazmat.rs use crate::{..}").group(1)
+    used = {x.strip() for x in use.split(",")}
+    for need in ("CHUNK_LEN", "CVWords", "Hasher", "IV", "KEY_LEN", "OUT_LEN"):
+        if need not in used:
+            raise AnchorError(f"hazmat.rs does not import crate::{need}")
+    find1(r"\buse\s+crate::platform::Platform\s*;", hz, "hazmat.rs use crate::platform::Platform")
+    find1(r"\bconst\s+IV\s*:\s*&CVWords\s*=\s*&\[", lib, "lib.rs const IV: &CVWords")
+    find1(r"\bpub\s+type\s+ChainingValue\s*=\s*\[\s*u8\s*;\s*OUT_LEN\s*\]\s*;", hz, "hazmat.rs type ChainingValue = [u8; OUT_LEN]")
+    find1(r"\bpub\s+type\s+ContextKey\s*=\s*\[\s*u8\s*;\s*KEY_LEN\s*\]\s*;", hz, "hazmat.rs type ContextKey = [u8; KEY_LEN]")
+    find1(r"\bpub\s+struct\s+Hash\s*\(\s*\[\s*u8\s*;\s*OUT_LEN\s*\]\s*\)\s*;", lib, "lib.rs struct Hash([u8; OUT_LEN])")
+    ctx.aconsts["IV"] = "rs_IV"
+    for t in ("ChainingValue", "&ChainingValue", "ContextKey", "&ContextKey", "Hash", "&Hash"):
+        ctx.types[t] = ("arr",)
+
+    out.append("(* ---- src/platform.rs: words_from_le_bytes_32 ---- *)\n")
+    f = PFn("rs", "hz_words_from_le_bytes_32", plat, r"\bpub\s+fn\s+words_from_le_bytes_32\s*\(", {}, {})
+    out.append(f.translate())
+    ctx.fns["platform::words_from_le_bytes_32"] = {"coq": "hz_words_from_le_bytes_32", "self": None, "struct": None,
+                                                   "params": [("bytes", ("arr",), False)], "ret": ("arr",), "res": False,
+                                                   "exts": [], "fuel": False}
+    # Hasher::new_internal is GenLibSmall's translation; Platform::detect() is its extra last parameter
+    h_impl = fn_body(lib, r"\bimpl\s+Hasher\s*\{", "impl Hasher")
+    _x_anchor_sig(h_impl, r"\bfn\s+new_internal\s*\(", ["key: &CVWords", "flags: u8"], "-> Self", "Hasher::new_internal")
+    ctx.fns["Hasher::new_internal"] = {"coq": "lib_Hasher_new_internal", "self": None, "struct": None,
+                                       "params": [("key", ("arr",), False), ("flags", ("int", 8), False)],
+                                       "ret": ("struct", "Hasher"), "res": False, "exts": [], "fuel": False, "detect": True}
+    find1(r"\bpub\s+mod\s+platform\s*;", lib, "lib.rs pub mod platform")
+    out.append("(* ---- src/lib.rs: Hasher::new, Hasher::new_keyed, impl Default for Hasher ---- *)\n")
+    for fname in ("new", "new_keyed"):
+        f = XFn(ctx, h_impl, "Hasher", fname, r"\bpub\s+fn\s+" + fname + r"\s*\(", [], coqname="hz_Hasher_" + fname)
+        out.append(f.translate())
+        ctx.fns["Hasher::" + fname] = f.sig
+    d_impl = fn_body(lib, r"\bimpl\s+Default\s+for\s+Hasher\s*\{", "impl Default for Hasher")
+    f = XFn(ctx, d_impl, "Hasher", "default", r"\bfn\s+default\s*\(", [], coqname="hz_Hasher_Default_default")
+    out.append(f.translate())
+    ctx.fns["Hasher::default"] = f.sig
+
+    # OutputReader::new: GenXof's translation stands in for the parameter of Hasher::finalize_xof
+    ctx.bound["OutputReader_new"] = "lib_OutputReader_new"
+    fx = dict(ctx.methods[("Hasher", "finalize_xof")])
+    if fx["ret"] != ("ext", "OutputReader") or "OutputReader_new" not in fx["exts"]:
+        raise AnchorError("Hasher::finalize_xof: shape of the translation in GenLibLoops")
+    fx["ret"] = ("struct", "OutputReader")
+    ctx.methods[("Hasher", "finalize_xof")] = fx
+
+    out.append("(* ---- src/hazmat.rs: impl HasherExt for Hasher ---- *)\n")
+    e_impl = fn_body(hz, r"\bimpl\s+HasherExt\s+for\s+Hasher\s*\{", "impl HasherExt for Hasher")
+    for fname, codes in _HAZMAT_EXT_FNS:
+        f = XFn(ctx, e_impl, "Hasher", fname, r"\bfn\s+" + fname + r"\s*\(", codes, coqname="hz_Hasher_" + fname)
+        out.append(f.translate())
+        if fname == "new_from_context_key":
+            ctx.fns["Hasher::" + fname] = f.sig
+        else:
+            ctx.methods[("Hasher", fname)] = f.sig
+
+    out.append("(* ---- src/hazmat.rs: enum Mode ---- *)\n")
+    ebody = fn_body(hz, r"\bpub\s+enum\s+Mode\s*<\s*'a\s*>\s*\{", "enum Mode")
+    variants = []
+    for item in _args(ebody):
+        item = " ".join(item.split())
+        m = re.fullmatch(r"(%s)(?:\((.*)\))?" % _IDENT, item)
+        if not m:
+            raise AnchorError(f"enum Mode: variant {item!r}")
+        if m.group(2) is None:
+            variants.append((m.group(1), None))
+        else:
+            ty = re.sub(r"&\s*'a\s+", "&", m.group(2))
+            if not (re.fullmatch(r"&\[u8; KEY_LEN\]", ty) or ty == "&ContextKey"):
+                raise AnchorError(f"enum Mode: payload {m.group(2)!r}")
+            variants.append((m.group(1), ("arr",)))
+    ctx.enums["Mode"] = {"name": "Mode", "path": None, "coq": "hz_Mode", "variants": variants}
+    out.append(ctx.enum_def("Mode"))
+    m_impl = fn_body(hz, r"\bimpl\s*<\s*'a\s*>\s*Mode\s*<\s*'a\s*>\s*\{", "impl Mode")
+    for fname in ("key_words", "flags_byte"):
+        f = XFn(ctx, m_impl, "Mode", fname, r"\bfn\s+" + fname + r"\s*\(", [], coqname="hz_Mode_" + fname,
+                self_kind=("enum", "Mode"))
+        out.append(f.translate())
+        ctx.methods[("Mode", fname)] = f.sig
+
+    out.append("(* ---- src/hazmat.rs: merge_subtrees_*, hash_derive_key_context ---- *)\n")
+    _x_anchor_sig(lib, r"\bfn\s+hash_all_at_once\s*<\s*J\s*:\s*join::Join\s*>\s*\(",
+                  ["input: &[u8]", "key: &CVWords", "flags: u8"], "-> Output", "hash_all_at_once")
+    ctx.add_ext("hash_all_at_once", "hash_all_at_once",
+                [("input", ("slice",), False), ("key", ("arr",), False), ("flags", ("int", 8), False)], ("struct", "Output"))
+    ctx.exts["hash_all_at_once"]["type"] = "list N -> list N -> N -> res lib_Output"
+    ctx.fns["hash_all_at_once"]["res"] = True
+    ctx.fns["hash_all_at_once"]["generics"] = ["crate::join::SerialJoin"]
+    find1(r"\bpub\s+enum\s+SerialJoin\s*\{\s*\}", strip_comments(src("src/join.rs")), "join.rs enum SerialJoin")
+    for fname, hdr in (("merge_subtrees_inner", r"\bfn\s+merge_subtrees_inner\s*\("),
+                       ("merge_subtrees_non_root", r"\bpub\s+fn\s+merge_subtrees_non_root\s*\("),
+                       ("merge_subtrees_root", r"\bpub\s+fn\s+merge_subtrees_root\s*\("),
+                       ("merge_subtrees_root_xof", r"\bpub\s+fn\s+merge_subtrees_root_xof\s*\("),
+                       ("hash_derive_key_context", r"\bpub\s+fn\s+hash_derive_key_context\s*\(")):
+        f = XFn(ctx, hz, None, fname, hdr, [], coqname="hz_" + fname)
+        out.append(f.translate())
+        ctx.fns[fname] = f.sig
+        ctx.fns["hazmat::" + fname] = f.sig
+    return "\n".join(out), ctx, lib
+
+
+def gen_hazmat():
+    return _hazmat_build()[0]
+
+
+_TRAIT_FNS = [("digest::Update", "Hasher", "update", "tr_Update_update"),
+              ("digest::Reset", "Hasher", "reset", "tr_Reset_reset"),
+              ("digest::FixedOutput", "Hasher", "finalize_into", "tr_FixedOutput_finalize_into"),
+              ("digest::FixedOutputReset", "Hasher", "finalize_into_reset", "tr_FixedOutputReset_finalize_into_reset"),
+              ("digest::ExtendableOutput", "Hasher", "finalize_xof", "tr_ExtendableOutput_finalize_xof"),
+              ("digest::ExtendableOutputReset", "Hasher", "finalize_xof_reset", "tr_ExtendableOutputReset_finalize_xof_reset"),
+              ("digest::XofReader", "OutputReader", "read", "tr_XofReader_read"),
+              ("digest::KeyInit", "Hasher", "new", "tr_KeyInit_new")]
+_TRAIT_SIZES = [("digest::OutputSizeUser", "OutputSize", "tr_OutputSizeUser_OutputSize"),
+                ("common::KeySizeUser", "KeySize", "tr_KeySizeUser_KeySize"),
+                ("common::BlockSizeUser", "BlockSize", "tr_BlockSizeUser_BlockSize")]
+
+
+def gen_traits():
+    text0, hctx, lib = _hazmat_build()
+    tr = strip_comments(src("src/traits.rs"))
+    gu = strip_comments(src("src/guts.rs"))
+    out = [_X_HEADER.replace("gen.GenLibLoops.", "gen.GenLibLoops gen.GenXof gen.GenHazmat.")]
+    ctx = XCtx("tr_", hctx)
+    find1(r"\buse\s+crate::\{\s*Hasher\s*,\s*OutputReader\s*\}\s*;", tr, "traits.rs use crate::{Hasher, OutputReader}")
+    find1(r"\buse\s+digest::array::\{\s*Array\s*,\s*typenum::U32\s*,\s*typenum::U64\s*\}\s*;", tr,
+          "traits.rs use digest::array::{Array, typenum::U32, typenum::U64}")
+    find1(r"\buse\s+digest::common\s*;", tr, "traits.rs use digest::common")
+
+    out.append("(* ---- src/traits.rs: the associated size types (typenum::U<n> is n) ---- *)\n")
+    sizes = {}
+    for trait, ty, coq in _TRAIT_SIZES:
+        body = fn_body(tr, r"\bimpl\s+" + trait + r"\s+for\s+Hasher\s*\{", f"impl {trait} for Hasher")
+        m = re.fullmatch(r"\s*type\s+" + ty + r"\s*=\s*U(\d+)\s*;\s*", body)
+        if not m:
+            raise AnchorError(f"impl {trait} for Hasher: {body.strip()!r}")
+        sizes[ty] = int(m.group(1))
+        out.append(f"Definition {coq} : N := {m.group(1)}.\n")
+    body = fn_body(tr, r"\bimpl\s+digest::ExtendableOutput\s+for\s+Hasher\s*\{", "impl digest::ExtendableOutput for Hasher")
+    find1(r"\btype\s+Reader\s*=\s*OutputReader\s*;", body, "ExtendableOutput::Reader = OutputReader")
+    # byte arrays of the digest crate: Array<u8, Self::OutputSize> (OutputSize anchored above), digest::Key<Self>
+    ctx.types["&mut Array<u8, Self::OutputSize>"] = ("arr",)
+    ctx.types["&digest::Key<Self>"] = ("arr",)
+    ctx.types["Self::Reader"] = ("struct", "OutputReader")
+
+    # Hasher::update (update_with_join and everything below it) is not translated here: explicit parameter
+    h_impl = fn_body(lib, r"\bimpl\s+Hasher\s*\{", "impl Hasher")
+    _x_anchor_sig(h_impl, r"\bpub\s+fn\s+update\s*\(", ["&mut self", "input: &[u8]"], "-> &mut Self", "Hasher::update")
+    ctx.exts["Hasher_update"] = {"type": "lib_Hasher -> list N -> res lib_Hasher", "tyvar": None}
+    ctx.methods[("Hasher", "update")] = {"coq": "ext_Hasher_update", "self": "mut", "struct": "Hasher",
+                                         "params": [("input", ("slice",), False)], "ret": None, "res": True,
+                                         "exts": ["Hasher_update"], "fuel": False, "external": True}
+    out.append("(* ---- src/traits.rs: the trait methods ---- *)\n")
+    for trait, ty, fname, coq in _TRAIT_FNS:
+        impl = fn_body(tr, r"\bimpl\s+" + trait + r"\s+for\s+" + ty + r"\s*\{", f"impl {trait} for {ty}")
+        f = XFn(ctx, impl, ty, fname, r"\bfn\s+" + fname + r"\s*\(", [], coqname=coq)
+        out.append(f.translate())
+
+    out.append("(* ---- src/guts.rs: struct ChunkState(crate::ChunkState) is its one field ---- *)\n")
+    find1(r"\bpub\s+struct\s+ChunkState\s*\(\s*crate::ChunkState\s*\)\s*;", gu, "guts.rs struct ChunkState(crate::ChunkState)")
+    gctx = XCtx("gu_", ctx)
+    g_impl = fn_body(gu, r"\bimpl\s+ChunkState\s*\{", "guts.rs impl ChunkState")
+    for fname in ("new", "len", "update", "finalize"):
+        f = XFn(gctx, g_impl, "ChunkState", fname, r"\bpub\s+fn\s+" + fname + r"\s*\(", [],
+                coqname="gu_ChunkState_" + fname, newtype=True)
+        out.append(f.translate())
+    f = XFn(gctx, gu, None, "parent_cv", r"\bpub\s+fn\s+parent_cv\s*\(", [], coqname="gu_parent_cv")
+    out.append(f.translate())
     return "\n".join(out)
 
 
@@ -7389,6 +8721,7 @@ GENERATORS = [("GenConsts.v", gen_consts), ("GenFormulas.v", gen_formulas), ("Ge
               ("GenCHasherLoops.v", gen_c_hasher_loops),
               ("GenRefImpl.v", gen_refimpl), ("GenRefImplLoops.v", gen_refimpl_loops),
               ("GenLibSmall.v", gen_lib_small), ("GenLibLoops.v", gen_lib_loops),
+              ("GenXof.v", gen_xof), ("GenHazmat.v", gen_hazmat), ("GenTraits.v", gen_traits),
               ("GenCounters.v", gen_counters),
               ("GenRounds.v", gen_kernel_rounds)]
 
